@@ -59,6 +59,23 @@ def main():
     # the live game with those of the same position set up afresh, every event (Trace_Game clause filed under C20)
     wres, wpaths = games.walk_traces(chk, events=500 if q else 10000, files=4 if q else 16, label="walk")
     games.collect_walk(chk, wres, wpaths)
+    # ... scripted lines in which a castled rook ends up behind its own queen or rook aimed at a piece that only the enemy
+    # king defends (the x-ray decides the verdict; data/castle_exchange_lines.txt, every step validated by Trace_Game)
+    sp = os.path.join(chk.outdir, "castle_lines.ndjson")
+    tables = os.path.join(chk.outdir, "tables.json")
+    vlib.harness(hb, ["walk", "--script", os.path.join(vlib.VERIF, "data", "castle_exchange_lines.txt"), "--out", sp, "--tables", tables])
+    sr = vlib.tlc("Trace_Game", env={"TRACE": sp, "TABLES": tables}, timeout=1200, xmx="3g")
+    if sr.error or not sr.stats("trace") or sr.viols("ROOT") or sr.viols("TRACE"):
+        raise vlib.ToolError("Trace_Game on the scripted lines: %s" % (sr.error or sr.viols("ROOT") or sr.stdout[-1000:]))
+    sr.path = sp
+    games.collect_walk(chk, [sr], [sp])
+    # ... and TLC-simulated games biased to castling / en passant / promotions, replayed with take-backs: after every
+    # operation the verdicts of the live game and of the position set up afresh must agree
+    gfiles = games.gen_game(chk, "mixed", behaviours=64 if q else 2000, steps=60, max_depth=12, jvms=4 if q else 16)
+    for m, p in games.replay_games(chk, gfiles):
+        if "see" in m.get("fields", []) or m["what"] == "panic":
+            w = "%s|%s|%s" % (m["what"], m.get("root"), " ".join(m.get("ops", [])))
+            chk.violation(w, "exchange-verdict-depends-on-how-the-position-was-reached", m, replay={"kind": "gen-game", "file": p})
     chk.cov.update({
         "states": tot["positions"], "transitions": tot["captures"], "traces_validated_against_impl": len(jobs),
         "evaluations": tot["captures"], "distinct_nontrivial": tot["losing"],
